@@ -52,6 +52,8 @@ type lkCase struct {
 	rt                    []int // peers put in the routing table
 	stopKind, stopArg     int   // 0 never, 1 queried-at-least n, 2 peer idx queried
 	strategy              int
+	choices               []int // strategy 4: the i-th release picks pending[choices[i]] (0 beyond the vector)
+	branching             []int // filled by the run: number of pending calls at each release
 	cancelAt              int
 	honest                bool
 	fullKnowledge         bool
@@ -460,6 +462,13 @@ func lkRun(t *testing.T, r *vfRand, c *lkCase, public bool, hooks ...*lkHooks) *
 		}
 		var i int
 		switch c.strategy {
+		case 4:
+			k := len(c.branching)
+			c.branching = append(c.branching, len(pending))
+			i = 0
+			if k < len(c.choices) && c.choices[k] < len(pending) {
+				i = c.choices[k]
+			}
 		case 0:
 			i = r.Intn(len(pending))
 		case 1, 2:
@@ -721,7 +730,7 @@ func lkRunAll(t *testing.T, runMod string, honestPct int, withPublic bool) {
 		c := lkGen(r, i, r.Chance(honestPct))
 		var o *lkObs
 		var self peer.ID
-		synctest.Test(t, func(t *testing.T) {
+		mainLeak := simBubble(t, func(t *testing.T) {
 			x := r.Uint64()
 			o = lkRun(t, vfNewRand(x), c, false)
 			self = o.self
@@ -733,6 +742,50 @@ func lkRunAll(t *testing.T, runMod string, honestPct int, withPublic bool) {
 				}
 			}
 		})
+		if o == nil {
+			o = &lkObs{cancelFollowup: -1}
+		}
+		if mainLeak != "" && o.panicked == "" {
+			o.panicked = "goroutines left blocked: " + mainLeak
+		}
+		// thorough tier: for tiny networks every release order is enumerated (depth-first over the choice vector)
+		if vfThorough() && len(c.peers) <= 4 && c.cancelAt < 0 && only < 0 {
+			c.strategy = 4
+			c.choices = nil
+			for sched := 0; sched < 150; sched++ {
+				c.branching = nil
+				var oe *lkObs
+				x := r.Uint64()
+				leak := simBubble(t, func(t *testing.T) { oe = lkRun(t, vfNewRand(x), c, false) })
+				if oe == nil {
+					break
+				}
+				if leak != "" {
+					oe.panicked = "leak: " + leak
+				}
+				de := lkDesc(i, seed, c, oe)
+				de["enumerated_schedule"] = append([]int(nil), c.choices...)
+				ie := cs.Add(lkCoq(c, oe, oe.self), de, "")
+				cs.Count("enumerated-schedules", 1)
+				if oe.panicked != "" || oe.deadlock {
+					cs.Fail(ie, "panic/deadlock under an enumerated schedule: "+oe.panicked, nil)
+				}
+				// next choice vector in depth-first order
+				vec := make([]int, len(c.branching))
+				copy(vec, c.choices)
+				k := len(vec) - 1
+				for k >= 0 && vec[k]+1 >= c.branching[k] {
+					k--
+				}
+				if k < 0 {
+					cs.Count("exhaustively-scheduled-networks", 1)
+					break
+				}
+				vec[k]++
+				c.choices = vec[:k+1]
+			}
+			c.strategy = 0
+		}
 		idx := cs.Add(lkCoq(c, o, self), lkDesc(i, seed, c, o), lkSignature(c, o))
 		cs.Count(fmt.Sprintf("K:%d", c.k), 1)
 		cs.Count(fmt.Sprintf("alpha:%d", c.alpha), 1)
